@@ -143,12 +143,15 @@ impl FormatStringParser<'_> {
             return Err("Unexpected EOF".into());
         }
 
-        Ok(&self.string[0..count])
+        // `count` is in bytes and may fall inside a multi-byte character.
+        self.string
+            .get(0..count)
+            .ok_or_else(|| "Unexpected multi-byte character".into())
     }
 
     fn advance_one(&mut self) -> Result<char, Box<dyn Error>> {
         let c = self.front()?;
-        self.string = &self.string[1..];
+        self.string = &self.string[c.len_utf8()..];
         Ok(c)
     }
 
